@@ -436,6 +436,38 @@ func c06Files(c *Ctx) {
 					k.Failf("file-gz", "%s.File(*.gz) differs from Reader on the uncompressed bytes:\n File   %s\n Reader %s", f, traceString(got), traceString(ref))
 				}
 				k.Count("file_gz", 1)
+				// ONE File value ranged more than once: again after a complete pass, again after an abandoned pass, and
+				// from inside its own loop (an all-against-all comparison of the records of one file). A path names the
+				// same bytes every time, so every pass yields the records of the file.
+				for _, path := range []string{plain, gz} {
+					it := cd.file(path)
+					collect(it, 1+r.IntN(3)) // an abandoned pass
+					var outer []item
+					for key, err := range it {
+						outer = append(outer, item{Key: key, Err: err != nil})
+						if len(outer) > len(x)+8 {
+							break
+						}
+						if n := len(outer); n == 1 || n == 2 || n == len(ref)/2+1 || n == len(ref) {
+							inner, over := collect(it, len(x)+8)
+							if over || !sameTrace(inner, ref) {
+								k.Failf("file-value-reranged", "%s.File(%s): a pass over the SAME File value started inside its own loop (at item %d) differs from Reader on the same bytes:\n File   %s\n Reader %s", f, filepath.Base(path), n, traceString(inner), traceString(ref))
+								return
+							}
+							k.Count("nested_passes_over_one_file_value", 1)
+						}
+					}
+					if !sameTrace(outer, ref) {
+						k.Failf("file-value-reranged", "%s.File(%s): the outer pass over a File value that was also ranged inside its own loop differs from Reader on the same bytes:\n File   %s\n Reader %s", f, filepath.Base(path), traceString(outer), traceString(ref))
+						return
+					}
+					again, over := collect(it, len(x)+8)
+					if over || !sameTrace(again, ref) {
+						k.Failf("file-value-reranged", "%s.File(%s): a later pass over the same File value differs from Reader on the same bytes:\n File   %s\n Reader %s", f, filepath.Base(path), traceString(again), traceString(ref))
+						return
+					}
+					k.Evals(2)
+				}
 				{
 					multi := filepath.Join(dir, fmt.Sprintf("m%d%s.gz", k.Idx, cd.ext))
 					if os.WriteFile(multi, gzipMembers(r, x), 0o644) == nil {
